@@ -318,7 +318,7 @@ func c01Notes(rec *evid.Rec) {
 func TestC01_Rapid(t *testing.T) {
 	rec := evid.For("C01")
 	c01Notes(rec)
-	n := evid.Pick(12000, 150000)
+	n := evid.Pick(25000, 150000)
 	i := 0
 	pbt.Check(t, rec, "decode", n, func(rt *rapid.T) (any, error) {
 		c := genDecodeCase(rt)
